@@ -14,6 +14,12 @@ CLAIMS = {
  "C06": dict(text="Proof: on arbitrary input every codec reader either fails or returns exactly the value of the strict reference decoder; a fixed-width payload, string or byte vector that is cut short is an error (never zero-padded, partial or zero-filled), and a wire type not admissible for the reader is an error.",
              note="Scope: package codec (tup.Decode and generated readers inherit strictness through these contracts but are not themselves under contract yet). Truncation inside an earlier, skipped field is classed as malformed and left unconstrained. Same trusted base as C02.",
              ref="DESIGN 7/C06"),
+ "C07": dict(text="Proof: TarsRequest implements the framing rule exactly (length below 4 or above the configured maximum is an error, exactly the maximum is accepted, incomplete input waits); both receive loops (server tcpHandler.recv, client connection.recv) maintain delivered ++ pending == bytes-read-so-far for every sequence of Read results, hand over only complete single frames, never keep a complete frame waiting for the next read, and close the connection when they return.",
+             note="Trusted: net.Conn.Read contract (bytes are appended to the ghost stream only when err == nil), ServerProtocol/ClientProtocol.ParsePackage interface contracts (= the framing rule; the Tars implementation TarsRequest is proved against the same rule), handleConn / go Recv as the delivery event, logging/time/atomic calls effect-free. Goroutine scheduling is not modelled; the loops are verified as sequential code for all chunkings.",
+             ref="DESIGN 7/C07"),
+ "C18": dict(text="Proof: Parse never panics for any string; every field of the result is the corresponding option value (or its documented default) extracted by the flag package from the fields after the first, with int32 conversion, the weight normalisation and the tcp/udp/ssl transport mapping; Key is the canonical string of (Proto, Host, Port, Timeout); Tars2endpoint/Endpoint2tars copy host, port, timeout, transport kind, grid, qos, weight, weight type, auth type and set id; a spec lemma shows the cache keys of a direct address and of its registry round trip agree for tcp/udp/ssl.",
+             note="Trusted: contracts of strings.Fields and flag.FlagSet (ghost registry of registered variables; option extraction itself is the uninterpreted flagInt/flagStr), Endpoint.String defines the canonical string (fmt.Sprintf uninterpreted). The call site in newEndpointManager is not under contract.",
+             ref="DESIGN 7/C18"),
 }
 NA = {
  "C11": "schedule property: needs an interleaving of sender/receiver goroutines over a shared connection; per-function contracts cannot quantify over schedules and govc has no concurrency logic",
